@@ -43,6 +43,104 @@ pub struct Case {
     /// dual-stack service; known records then advertise an IPv4 and an IPv6 socket (requests arrive over IPv4)
     #[serde(default)]
     pub dual: bool,
+    /// wire-engine companion (real handlers): when present, `steps` is empty
+    #[serde(default)]
+    pub wire: Option<WireTalk>,
+}
+
+/// `n_req` TALK requests from 1..2 peers are delivered to V's application, which holds them all and
+/// then settles them in one go; every answer must hit the wire exactly once.
+#[derive(Clone, Debug, PartialEq, Eq, Hash, Serialize, Deserialize)]
+pub struct WireTalk {
+    pub n_req: u8,
+    pub two_peers: bool,
+    pub newest_first: bool,
+}
+
+async fn run_wire(wt: &WireTalk, rep: &mut CaseReport) -> Option<(String, String)> {
+    use crate::engines::wire::{AppMode, Body, Know, Op, WireConfig, World};
+    use crate::engines::wire_interp::act;
+    use discv5::verif::Message;
+    let np = if wt.two_peers { 2 } else { 1 };
+    let mut resp_mode = vec![AppMode::Immediate; 4];
+    resp_mode[0] = AppMode::Manual;
+    let cfg = WireConfig {
+        n_peers: np,
+        retries: 1,
+        filter: false,
+        wru_mode: vec![AppMode::Immediate; 4],
+        wru_know: vec![Know::Current; 4],
+        resp_mode,
+        nodes_packets: 1,
+        seqs: vec![1; 4],
+        nat_peers: vec![],
+        nat_kind: 0,
+        dual_records: false,
+        foreign_enr_answer: vec![],
+        v_session_timeout_ms: None,
+        v_session_capacity: None,
+    };
+    let mut w = World::new(cfg).await;
+    async fn deliver_all(w: &mut World) {
+        let mut guard = 0;
+        while !w.pool.is_empty() && guard < 2000 {
+            guard += 1;
+            let idx = w.pool.remove(0);
+            w.deliver_logged(idx);
+            w.settle().await;
+            w.step += 1;
+        }
+    }
+    let n = wt.n_req.max(1) as usize;
+    for j in 0..n {
+        act(&mut w, &Op::Submit { from: 1 + (j % np as usize) as u8, to: 0, body: Body::Talk(j as u8), with_record: true });
+        w.settle().await;
+        w.step += 1;
+        deliver_all(&mut w).await;
+    }
+    let mut held = std::mem::take(&mut w.nodes[0].held_req);
+    if wt.newest_first {
+        held.reverse();
+    }
+    let talks: Vec<_> = held.iter().filter(|(_, r)| matches!(r.body, RequestBody::Talk { .. })).cloned().collect();
+    rep.class("wire-companion");
+    rep.count("wire_talk_requests_held_then_settled_at_once", talks.len() as u64);
+    if talks.len() > 30 {
+        rep.class("wire-companion/more-than-30-answers-in-one-go");
+        rep.nontrivial = true;
+    }
+    let log0 = w.log.len();
+    for (addr, req) in held {
+        w.respond(0, addr, req, 1);
+    }
+    w.settle().await;
+    w.step += 1;
+    // count the TALKRESPs V put on the wire, per (destination, request id)
+    let mut sent: HashMap<(std::net::SocketAddr, RequestId), usize> = HashMap::new();
+    for d in &w.log[log0..] {
+        if d.from_node != Some(0) {
+            continue;
+        }
+        if let Some((Message::Response(r), _)) = crate::props::c04::decrypt(d, &w.keys_seen[0]) {
+            if matches!(r.body, ResponseBody::Talk { .. }) {
+                *sent.entry((d.to_addr, r.id.clone())).or_insert(0) += 1;
+            }
+        }
+    }
+    for (addr, req) in &talks {
+        let c = sent.get(&(addr.socket_addr, req.id.clone())).copied().unwrap_or(0);
+        if c != 1 {
+            return Some((
+                if c == 0 { "talk/answer-never-sent".to_string() } else { "talk/answered-more-than-once".to_string() },
+                format!("V's application answered {} held TALK requests in one go; the answer to request {} from {} went onto the wire {c} times", talks.len(), req.id, addr.socket_addr),
+            ));
+        }
+    }
+    deliver_all(&mut w).await;
+    if let Some(p) = crate::runner::take_panic() {
+        return Some((format!("panic-in-task/{}", p.split(':').take(2).collect::<Vec<_>>().join(":")), p));
+    }
+    None
 }
 
 pub struct C20;
@@ -286,12 +384,28 @@ impl Property for C20 {
             1 => (0u8..4, prop_oneof![Just(5u8), Just(110u8)]).prop_map(|(from, n)| Step::Burst { from, n }),
             2 => prop_oneof![1u32..200, 200u32..3000, 3000u32..20000, Just(60_000u32)].prop_map(|ms| Step::Wait { ms }),
         ];
-        (prop_oneof![5 => Just(true), 1 => Just(false)], proptest::collection::vec(step, 1..20), any::<bool>(), 0u8..16, 0u8..16, prop_oneof![3 => Just(false), 1 => Just(true)])
-            .prop_map(|(register_events, steps, respond_after_shutdown, known, moved, dual)| Case { register_events, steps, respond_after_shutdown, known, moved, dual })
-            .boxed()
+        let step_cases = (prop_oneof![5 => Just(true), 1 => Just(false)], proptest::collection::vec(step, 1..20), any::<bool>(), 0u8..16, 0u8..16, prop_oneof![3 => Just(false), 1 => Just(true)])
+            .prop_map(|(register_events, steps, respond_after_shutdown, known, moved, dual)| Case { register_events, steps, respond_after_shutdown, known, moved, dual, wire: None });
+        let svc = step_cases;
+        let companion = (prop_oneof![1 => 1u8..31, 3 => 31u8..=90], any::<bool>(), any::<bool>()).prop_map(|(n_req, two_peers, newest_first)| Case {
+            register_events: true,
+            steps: vec![],
+            respond_after_shutdown: false,
+            known: 0,
+            moved: 0,
+            dual: false,
+            wire: Some(WireTalk { n_req, two_peers, newest_first }),
+        });
+        prop_oneof![150 => svc, 1 => companion].boxed()
     }
     fn run(case: &Case) -> CaseReport {
         let mut rep = CaseReport::default();
+        if let Some(wt) = &case.wire {
+            if let Some((s, d)) = run_blocking(run_wire(wt, &mut rep)) {
+                rep.fail(s, d);
+            }
+            return rep;
+        }
         let v = run_blocking(run(case, &mut rep));
         if let Some((s, d)) = v {
             rep.fail(s, d);
